@@ -46,7 +46,7 @@ NOT_APPLICABLE = {
 
 PROPS = {
     'C15': dict(
-        rules=[r_linear.rule_L01_c15],
+        rules=[r_linear.rule_L01_c15, r_linear.rule_L01_convex],
         feature_sets=_sets(['default'], ['default', 'u16', 'f32']),
         rules_thorough=[on_build(r_linear.rule_L01_c15, 'u16'), on_build(r_linear.rule_L01_c15, 'f32')],
         explanation=('(L01) weight-sum typing. The constructor and next() of every type that implements MovingAverage over a single value are '
@@ -57,8 +57,14 @@ PROPS = {
                      'the (w, c) the constructor gave it and the returned value has w = 1, c = 0 - so, in exact arithmetic and for every length, the kind '
                      'is a homogeneous linear filter whose weights sum to one: it reproduces a constant, commutes with a*x + b, satisfies superposition. '
                      'A violation is a path without stream-dependent branches whose returned (w, c) is decided and differs from (1, 0) at some step of the '
-                     'constant stream. Kinds outside the domain (SMM selection, Vidya and VWMA products of stream values, Conv loop) are listed as undecided.'),
-        not_decided=['that each individual weight is the documented one (impulse response / weight profile) and non-negative (range containment): only the SUM of the weights and linearity are decided',
+                     'constant stream. Kinds outside the domain (SMM selection, Vidya and VWMA products of stream values, Conv loop) are listed as undecided. '
+                     'A narrowing integer cast of a configuration quantity is the identity only when the quantity fits for every accepted length (checked over the finite range of the length); '
+                     'otherwise the weights are compared at a length where the cast really loses bits. '
+                     '(L01c) range containment of the window-less kinds the property lists as non-negative (EMA, DMA, TMA, RMA, WSMA): with explicit coefficients over the atoms '
+                     '"input" and "previous value of each state field", every coefficient of the new state values and of the output is non-negative for every length '
+                     '(certificate: after the shift k = kmin + j numerator and denominator have coefficients of one sign; a negative value at some length is the witness of a violation); '
+                     'together with coefficient sum 1 every update is a convex combination, so by induction the output stays in the range of the values seen.'),
+        not_decided=['that each individual weight is the documented one (impulse response / weight profile): only the SUM of the weights and linearity are decided; non-negativity (range containment) only for the window-less kinds EMA, DMA, TMA, RMA, WSMA - the windowed kinds would need the invariant that ties the accumulator to the window contents',
                      'floating-point rounding: the argument is over the reals',
                      'SMM, Vidya, VWMA, Conv and the MA enum dispatch (S06 under C05 decides the wiring): outside the domain, listed as undecided'],
         assumptions=TRUST,
